@@ -156,33 +156,52 @@ theorem getUserData_ok' {s : S} (h : Inv s) :
         | console =>
           exact ⟨_, _, rfl, ⟨hl1, hse1, ok.inv.eMax, ok.inv.dec⟩, by dsimp only; rw [ok.dec]⟩
 
+theorem consoleMakeRoom_ok {s : S} (h : Inv s) (len : Nat) :
+    ∃ s1, consoleMakeRoom s len = .ok s1 ∧ Inv s1 ∧ s1.dec = s.dec := by
+  unfold consoleMakeRoom
+  split
+  · obtain ⟨c, hc⟩ := cmdInBuf_ok s (by have := h.eMax; have := h.textLen; omega)
+    rw [hc]
+    cases c
+    · simp only [Bool.false_eq_true, if_false]
+      exact ⟨_, rfl, ⟨h.textLen, Nat.le_refl _, by dsimp only; decide, h.dec⟩, rfl⟩
+    · simp only [if_true]
+      exact ⟨_, rfl, h, rfl⟩
+  · exact ⟨_, rfl, h, rfl⟩
+
 /-- add_console_line keeps the invariant (a blob that does not fit is dropped as a whole) -/
-theorem addConsoleLine_ok' {s : S} (h : Inv s) (bytes : List Byte) :
+theorem addConsoleLine_ok' {s : S} (h0 : Inv s) (bytes : List Byte) :
     ∃ s', addConsoleLine s bytes = .ok s' ∧ Inv s' ∧ s'.dec.fl.single = s.dec.fl.single := by
   unfold addConsoleLine
   dsimp only
   split
+  · exact ⟨_, rfl, h0, rfl⟩
+  obtain ⟨s1, e1, h, d1⟩ := consoleMakeRoom_ok h0 bytes.length
+  rw [e1]
+  dsimp only
+  rw [← d1]
+  split
   · exact ⟨_, rfl, h, rfl⟩
   · rename_i hc
     have hl := h.textLen
-    have hw1 : s.tend + (bytes.map (fun b => if b = bLF ∨ b = bCR then bNUL else b)).length ≤ s.text.length := by
+    have hw1 : s1.tend + (bytes.map (fun b => if b = bLF ∨ b = bCR then bNUL else b)).length ≤ s1.text.length := by
       simp; omega
     rw [writeAt_ok hw1]
     dsimp only
     have hl2 := writeAt_length (writeAt_ok hw1)
-    have hw2 : s.tend + bytes.length + ([0] : List Byte).length ≤
-        (List.take s.tend s.text ++ bytes.map (fun b => if b = bLF ∨ b = bCR then bNUL else b) ++
-          List.drop (s.tend + (bytes.map (fun b => if b = bLF ∨ b = bCR then bNUL else b)).length) s.text).length := by
+    have hw2 : s1.tend + bytes.length + ([0] : List Byte).length ≤
+        (List.take s1.tend s1.text ++ bytes.map (fun b => if b = bLF ∨ b = bCR then bNUL else b) ++
+          List.drop (s1.tend + (bytes.map (fun b => if b = bLF ∨ b = bCR then bNUL else b)).length) s1.text).length := by
       rw [hl2]; simp; omega
     rw [writeAt_ok hw2]
     dsimp only
     have hl3 := writeAt_length (writeAt_ok hw2)
     obtain ⟨f, hf, hfs⟩ := setCmdFlag_ok
-      { s with text := List.take (s.tend + bytes.length) (List.take s.tend s.text ++ bytes.map (fun b => if b = bLF ∨ b = bCR then bNUL else b) ++
-          List.drop (s.tend + (bytes.map (fun b => if b = bLF ∨ b = bCR then bNUL else b)).length) s.text) ++ [0] ++
-          List.drop (s.tend + bytes.length + ([0] : List Byte).length) (List.take s.tend s.text ++ bytes.map (fun b => if b = bLF ∨ b = bCR then bNUL else b) ++
-          List.drop (s.tend + (bytes.map (fun b => if b = bLF ∨ b = bCR then bNUL else b)).length) s.text),
-               tend := s.tend + bytes.length }
+      { s1 with text := List.take (s1.tend + bytes.length) (List.take s1.tend s1.text ++ bytes.map (fun b => if b = bLF ∨ b = bCR then bNUL else b) ++
+          List.drop (s1.tend + (bytes.map (fun b => if b = bLF ∨ b = bCR then bNUL else b)).length) s1.text) ++ [0] ++
+          List.drop (s1.tend + bytes.length + ([0] : List Byte).length) (List.take s1.tend s1.text ++ bytes.map (fun b => if b = bLF ∨ b = bCR then bNUL else b) ++
+          List.drop (s1.tend + (bytes.map (fun b => if b = bLF ∨ b = bCR then bNUL else b)).length) s1.text),
+                tend := s1.tend + bytes.length }
       (by dsimp only; rw [hl3, hl2]; omega)
     rw [hf]
     refine ⟨_, rfl, ⟨?_, ?_, ?_, decInv_fl h.dec f⟩, ?_⟩
